@@ -88,7 +88,7 @@ func (s *Strat) compile() (hintadv.Strategy, error) {
 	op := s.Op
 	seq := s.Seq
 	switch op {
-	case "flip", "zero", "rot", "rotl", "add", "set", "other", "alias", "scale":
+	case "flip", "zero", "rot", "rotl", "add", "set", "other", "alias", "aliaspart", "scale":
 	default:
 		return nil, fmt.Errorf("unknown strategy op %q", op)
 	}
@@ -150,6 +150,13 @@ func (s *Strat) compile() (hintadv.Strategy, error) {
 			for i := range o {
 				o[i].SetUint64(uint64(t.Bit(i)))
 			}
+		case "aliaspart": // bitslice.partitionHint(split, v) -> (upper, lower): the slices of v + modulus
+			if len(c.Inputs) < 2 || len(o) < 2 || !c.Inputs[0].IsUint64() || c.Inputs[0].Uint64() > 4096 {
+				return false
+			}
+			t := new(big.Int).Add(c.Inputs[1], c.Mod)
+			pw := new(big.Int).Lsh(big.NewInt(1), uint(c.Inputs[0].Uint64()))
+			o[0].QuoRem(t, pw, o[1])
 		case "scale":
 			for i := range o {
 				o[i].Lsh(o[i], 1)
@@ -353,8 +360,10 @@ func stratMenu(g string, p []int, bound *big.Int, q *big.Int) []Strat {
 		split := p[0]
 		pow := new(big.Int).Lsh(big.NewInt(1), uint(split))
 		npow := new(big.Int).Neg(pow)
+		// the slices of v + p (only satisfiable if the width reaches the field bit length and nothing stops the overflow)
+		one("bitslice.partitionHint", "aliaspart")
 		if p[1] == 0 || p[1] >= q.BitLen() {
-			// binary-decomposition path: no partition / range-check hints
+			// binary-decomposition path: no partition / range-check hints are expected to run
 			bitsAlias()
 			one("bits.nBits", "flip")
 			one("bits.nBits", "zero")
